@@ -263,11 +263,22 @@ Qed.
 
 (* solve [cf ty r X]: peel record updates off X that touch neither the control fields
    nor the queue, then chain the cf-facts in the context backwards *)
+(* [proj (upd r1) = proj r1] for an update [upd] that does not touch [proj]: proved for a
+   VARIABLE r0 and then instantiated, so that neither the tactic nor the kernel ever
+   compares two large record terms *)
+Ltac solve_upd r1 :=
+  pattern r1;
+  lazymatch goal with
+  | |- ?P r1 =>
+      let K := fresh "K" in
+      assert (K : forall r0 : raft, P r0) by (intro; reflexivity); exact (K r1)
+  end.
+
 Ltac cf_peel :=
   lazymatch goal with
-  | |- cf _ _ (put_pr ?r1 _ _) => apply (cf_same _ _ r1); [reflexivity|reflexivity|]; cf_peel
-  | |- cf _ _ (set_conf_prs ?r1 _ _) => apply (cf_same _ _ r1); [reflexivity|reflexivity|]; cf_peel
-  | |- cf _ _ (set _ _ ?r1) => apply (cf_same _ _ r1); [reflexivity|reflexivity|]; cf_peel
+  | |- cf _ _ (put_pr ?r1 _ _) => apply (cf_same _ _ r1); [solve_upd r1|solve_upd r1|]; cf_peel
+  | |- cf _ _ (set_conf_prs ?r1 _ _) => apply (cf_same _ _ r1); [solve_upd r1|solve_upd r1|]; cf_peel
+  | |- cf _ _ (set _ _ ?r1) => apply (cf_same _ _ r1); [solve_upd r1|solve_upd r1|]; cf_peel
   | _ => idtac
   end.
 
@@ -546,10 +557,11 @@ Section Helpers.
 
   Ltac wf_peel :=
     lazymatch goal with
-    | |- wf _ (put_pr ?r1 _ _) => apply (wf_same _ r1); [reflexivity|reflexivity|left; reflexivity|]; wf_peel
-    | |- wf _ (set_conf_prs ?r1 _ _) => apply (wf_same _ r1); [reflexivity|reflexivity|left; reflexivity|]; wf_peel
+    | |- wf _ (put_pr ?r1 _ _) => apply (wf_same _ r1); [solve_upd r1|solve_upd r1|left; solve_upd r1|]; wf_peel
+    | |- wf _ (set_conf_prs ?r1 _ _) => apply (wf_same _ r1); [solve_upd r1|solve_upd r1|left; solve_upd r1|]; wf_peel
     | |- wf _ (set _ _ ?r1) =>
-        apply (wf_same _ r1); [reflexivity|reflexivity|first [left; reflexivity|right; reflexivity]|]; wf_peel
+        apply (wf_same _ r1);
+          [solve_upd r1|solve_upd r1|first [left; solve_upd r1|right; reflexivity]|]; wf_peel
     | _ => idtac
     end.
 
@@ -887,9 +899,9 @@ Section Helpers.
   Proof.
     intros H. unfold handle_transfer_leader in H.
     destruct (get_pr r (m_from m)) as [pr|] eqn:Epr;
-      [|inversion H; left; split; [reflexivity|left; reflexivity]].
+      [|inversion H; subst; left; split; [reflexivity|left; assumption]].
     destruct (IdSet.mem (m_from m) (learners (conf_of r))) eqn:El;
-      [inversion H; left; split; [reflexivity|right; left; reflexivity]|].
+      [inversion H; subst; left; split; [reflexivity|right; left; assumption]|].
     assert (Hstart : forall r0, r0 = r \/ r0 = r <| r_lead_transferee := None |> ->
       r_lead_transferee r <> Some (m_from m) -> m_from m <> r_id r ->
       match get_pr (r0 <| r_election_elapsed := 0 |> <| r_lead_transferee := Some (m_from m) |>) (m_from m) with
@@ -908,15 +920,15 @@ Section Helpers.
       change (get_pr (tl_start r (m_from m)) (m_from m)) with (get_pr r (m_from m)) in K.
       change (r_log (tl_start r (m_from m))) with (r_log r) in K.
       rewrite Epr in K.
-      repeat split; try assumption. exists pr. split; [reflexivity|].
+      repeat split; try assumption. exists pr. split; [exact Epr|].
       destruct (matched pr =? last_index (r_log r)) eqn:Em.
       - left. apply N.eqb_eq in Em. split; assumption.
       - right. apply N.eqb_neq in Em. split; [assumption|].
         inv_bind K. destruct x as [[r1 pr1] b]. inversion K; subst. eauto. }
     destruct (r_lead_transferee r) as [last|] eqn:Elt.
     - destruct (last =? m_from m) eqn:Elast.
-      { apply N.eqb_eq in Elast. subst last. inversion H; left. split; [reflexivity|].
-        right; right; left; reflexivity. }
+      { apply N.eqb_eq in Elast. subst last. inversion H; subst. left. split; [reflexivity|].
+        right; right; left; exact Elt. }
       apply N.eqb_neq in Elast.
       change (r_id (r <| r_lead_transferee := None |>)) with (r_id r) in H.
       destruct (m_from m =? r_id r) eqn:Eself.
@@ -931,3 +943,84 @@ Section Helpers.
   Qed.
 
 End Helpers.
+
+(* ------------------------------------------------------------------ *)
+(* 5. transfer_ignored (unconditional equalities: these calls never panic) *)
+
+Theorem transfer_ignored_unknown r m :
+  get_pr r (m_from m) = None -> handle_transfer_leader r m = Ok r.
+Proof. intros H. unfold handle_transfer_leader. rewrite H. reflexivity. Qed.
+
+Theorem transfer_ignored_learner r m :
+  IdSet.mem (m_from m) (learners (conf_of r)) = true -> handle_transfer_leader r m = Ok r.
+Proof.
+  intros H. unfold handle_transfer_leader. destruct (get_pr r (m_from m)); [|reflexivity].
+  rewrite H. reflexivity.
+Qed.
+
+Theorem transfer_same_target r m :
+  r_lead_transferee r = Some (m_from m) -> handle_transfer_leader r m = Ok r.
+Proof.
+  intros H. unfold handle_transfer_leader. destruct (get_pr r (m_from m)); [|reflexivity].
+  destruct (IdSet.mem _ _); [reflexivity|]. rewrite H, N.eqb_refl. reflexivity.
+Qed.
+
+Theorem transfer_to_self r m :
+  m_from m = r_id r ->
+  handle_transfer_leader r m = Ok r \/
+  (handle_transfer_leader r m = Ok (r <| r_lead_transferee := None |>) /\
+   exists o, r_lead_transferee r = Some o /\ o <> r_id r).
+Proof.
+  intros H. unfold handle_transfer_leader. destruct (get_pr r (m_from m)); [|left; reflexivity].
+  destruct (IdSet.mem _ _); [left; reflexivity|].
+  destruct (r_lead_transferee r) as [last|] eqn:E.
+  - destruct (last =? m_from m) eqn:El; [left; reflexivity|].
+    change (r_id (r <| r_lead_transferee := None |>)) with (r_id r).
+    rewrite H, N.eqb_refl. right. split; [reflexivity|]. exists last. split; [reflexivity|].
+    apply N.eqb_neq in El. congruence.
+  - rewrite H, N.eqb_refl. left; reflexivity.
+Qed.
+
+(* lifted to [step] on a leader, for a local or same-term request *)
+Lemma step_leader_transfer r m :
+  is_leader r = true -> m_type m = MsgTransferLeader -> same_term_msg r m ->
+  step r m = (r' <- handle_transfer_leader r m ;; Ok (r', E_OK)).
+Proof.
+  intros Hl Hty Hterm. rewrite (step_same_term _ _ Hterm), Hty, (is_leader_state _ Hl).
+  unfold step_leader. rewrite Hty. reflexivity.
+Qed.
+
+Theorem transfer_ignored_step r m :
+  is_leader r = true -> m_type m = MsgTransferLeader -> same_term_msg r m ->
+  (get_pr r (m_from m) = None \/ IdSet.mem (m_from m) (learners (conf_of r)) = true \/
+   r_lead_transferee r = Some (m_from m)) ->
+  step r m = Ok (r, E_OK).
+Proof.
+  intros Hl Hty Hterm Hc. rewrite step_leader_transfer by assumption.
+  destruct Hc as [Hc|[Hc|Hc]];
+    [rewrite transfer_ignored_unknown|rewrite transfer_ignored_learner|rewrite transfer_same_target];
+    auto.
+Qed.
+
+Theorem transfer_to_self_step r m :
+  is_leader r = true -> m_type m = MsgTransferLeader -> same_term_msg r m ->
+  m_from m = r_id r ->
+  step r m = Ok (r, E_OK) \/
+  (step r m = Ok (r <| r_lead_transferee := None |>, E_OK) /\
+   exists o, r_lead_transferee r = Some o /\ o <> r_id r).
+Proof.
+  intros Hl Hty Hterm Hs. rewrite step_leader_transfer by assumption.
+  destruct (transfer_to_self r m Hs) as [E|[E K]]; rewrite E; [left|right]; auto.
+Qed.
+
+(* RawNode::transfer_leader naming a learner, an unknown node or the pending target *)
+Theorem rn_transfer_leader_ignored n id :
+  is_leader (rn_raft n) = true ->
+  (get_pr (rn_raft n) id = None \/ IdSet.mem id (learners (conf_of (rn_raft n))) = true \/
+   r_lead_transferee (rn_raft n) = Some id) ->
+  rn_transfer_leader n id = Ok n.
+Proof.
+  intros Hl Hc. unfold rn_transfer_leader.
+  rewrite transfer_ignored_step; auto; try (left; reflexivity).
+  cbn. rewrite rn_eta. reflexivity.
+Qed.
